@@ -331,8 +331,21 @@ def shrink(harness, c, key):
     return cur
 
 
+def _build(fn, *a):
+    """the source snapshots under .build are garbage-collected (keep=3) by concurrently running checks of
+    other worktrees; a snapshot vanishing mid-compile shows up as a missing header.
+    Retry that (and only that) case; a header really missing from the tree fails again and propagates."""
+    for attempt in range(3):
+        try:
+            return fn(*a)
+        except vv.BuildError as e:
+            if attempt == 2 or "No such file or directory" not in str(e):
+                raise
+            vv.log("snapshot vanished during the build (concurrent gc); retrying")
+
+
 def run(ck):
-    vv.build_lib("asan")
+    _build(vv.build_lib, "asan")
     res = vv.prove("Properties_C18", vv.FLOCQ_AXIOMS)
     ck.add_proof(res)
     ck.trusted += ["coq/Base/F64.v: Flocq 4.1 BinarySingleNaN (prec 53, emax 1024, RNE) as the meaning of double; "
@@ -345,7 +358,7 @@ def run(ck):
                        "for non-NaN vectors only, as in the property",
                        "Expects contracts: operator+=,-=,*= need rhs at least as long as lhs, distance equal sizes, "
                        "model_measurements accuracy <= 1; outside them the model returns None and the harness does not call"]
-    harness = vv.build_harness("h_fitness")
+    harness = _build(vv.build_harness, "h_fitness")
     model = vv.ocaml_model("Fitness")
     rng = ck.rng
 
@@ -383,6 +396,7 @@ def run(ck):
     hout, mout, crashes = run_cases(harness, model, cases)
     hist = {}
     parsed = []
+    shrunk_keys = set()
     for k, c in enumerate(cases):
         ck.count()
         shape = "%d/%d" % (len(c["a"]), len(c["b"]))
@@ -406,6 +420,9 @@ def run(ck):
                              {"cases": [c], "impl": ho, "model": mo, "sanitizer": crashes.get(k, "")[-1500:]})
             continue
         for key, what in oracle_pair(c, o):
+            if key in shrunk_keys:
+                continue            # one minimal replay per failing law
+            shrunk_keys.add(key)
             small = shrink(harness, c, key)
             ck.add_violation(key, "a=(%s) b=(%s): %s" % (show_vec(small["a"]), show_vec(small["b"]), what),
                              {"cases": [small], "original": c, "impl": ho, "model": mo, "oracle": what})
